@@ -389,6 +389,41 @@ Definition emit (s : st) (ch : string) (label : Z * string * string) (begin e : 
     {| dcolls := dcolls s1; dparts := dparts s1; handlers := handlers s1; clocks := clocks s1; heap := heap s1; cbars := cbars s1;
        pbars := pbars s1; pbar_handlers := pbar_handlers s1; keymap := keymap s1; out := (out s1 ++ [pk])%list; events := events s1; alive := alive s1 |}.
 
+(* the same in the two sections the code takes it in - before the channel lock: S2a / S2b, the pack is shifted above the
+   channel's time and the channel's time is raised; under the channel lock: S3 (shifted again if a tick overtook it), the closing
+   tick, the clock update and S4, the enqueue (after the repair C03-enqueue-under-lock the pack is put on the queue before the
+   lock is released).  Other handlers of the channel may run between the two sections *)
+Definition emit1 (s : st) (ch : string) (begin e : N) (msgs : list emsg) : st * (list emsg * N * N) :=
+  let c0 := clock_of s ch in
+  match apply_reset msgs begin e (cts c0) with
+  | Some (m', b', e') => (set_clock s ch (collect c0 e'), (m', b', e'))
+  | None => (s, (msgs, begin, e))
+  end.
+
+Definition emit23 (s : st) (ch : string) (label : Z * string * string) (pend : list emsg * N * N) (need : bool) : st :=
+  let '(msgs1, b1, e1) := pend in
+  let c1 := clock_of s ch in
+  let has := match msgs1 with [] => false | _ => true end in
+  let reset_last := need || has in
+  if negb (reset_last || (gate c1 && negb (N.eqb (cts c1) 0))) then set_clock s ch c1
+  else
+    let '(msgs2, b2, e2, gen, c2) :=
+      if N.ltb (lts c1) b1 then (msgs1, b1, e1, cts c1, c1)
+      else match apply_reset msgs1 b1 e1 (cts c1) with
+           | Some (m', b', e') => (m', b', e', e', {| cts := e'; lts := lts c1; gate := gate c1 |})
+           | None => (msgs1, b1, e1, cts c1, c1)
+           end in
+    let closing := tick ch gen e2 in
+    let body := (msgs2 ++ [closing])%list in
+    let body := if N.eqb (lts c2) 0 then tick ch b2 b2 :: body else body in
+    let c3 := {| cts := if N.ltb (cts c2) gen then gen else cts c2; lts := gen; gate := reset_last |} in
+    let '(coll, cname, spch) := label in
+    let pk := {| ep_chan := ch; ep_coll := coll; ep_cname := cname; ep_spch := spch; ep_begin := b2; ep_end := e2;
+                 ep_poschan := ch; ep_endposts := e2; ep_msgs := body |} in
+    let s1 := set_clock s ch c3 in
+    {| dcolls := dcolls s1; dparts := dparts s1; handlers := handlers s1; clocks := clocks s1; heap := heap s1; cbars := cbars s1;
+       pbars := pbars s1; pbar_handlers := pbar_handlers s1; keymap := keymap s1; out := (out s1 ++ [pk])%list; events := events s1; alive := alive s1 |}.
+
 (* ---- barriers firing (the barrier goroutines), run to completion after every label ---- *)
 Definition fire_cbars (s : st) : st :=
   fold_left (fun s cb =>
